@@ -58,6 +58,17 @@ def xml_for(doc, r, rng):
         pre = b"xtce:" if (doc["kind"] == "file" and doc["style"] == "prefix") or (doc["kind"] == "gen" and r["style"] == "prefix" and r["prefix"] == "xtce") else \
             (r["prefix"].encode() + b":" if doc["kind"] == "gen" and r["style"] == "prefix" else b"")
         xml = xml[:i + len(tag)] + b"<" + pre + b'ArrayParameterType name="UNSUPPORTED_ARRAY"/>' + xml[i + len(tag):]
+    elif r["fault"] == "latefail":
+        # a container at the end of the ContainerSet that looks up its base container by name and then fails on an undefined
+        # parameter: the load fails in the third pass, after by-name element lookups have been made
+        pre = b"xtce:" if (doc["kind"] == "file" and doc["style"] == "prefix") else \
+            (r["prefix"].encode() + b":" if doc["kind"] == "gen" and r["style"] == "prefix" else b"")
+        base = doc["defn"]["root"].encode() if doc["kind"] == "gen" else b"CCSDSPacket"
+        bad = (b"<" + pre + b'SequenceContainer name="ZZ_LATE_FAIL"><' + pre + b'EntryList><' + pre + b'ParameterRefEntry parameterRef="NO_SUCH_PARAMETER"/></'
+               + pre + b"EntryList><" + pre + b'BaseContainer containerRef="' + base + b'"/></' + pre + b"SequenceContainer>")
+        tag = b"</" + pre + b"ContainerSet>"
+        i = xml.rfind(tag)
+        xml = xml[:i] + bad + xml[i:]
     return xml
 
 
@@ -180,10 +191,10 @@ def run(ctx):
             doc = alld[di]
             if doc["kind"] == "file":
                 req = {"doc": di, "style": doc["style"], "prefix": doc["prefix"], "xsi": any(k == "xsi" for k, _ in doc["extra"]),
-                       "fault": rng.choice(["none", "none", "none", "badprefix", "malformed"])}
+                       "fault": rng.choice(["none", "none", "none", "badprefix", "malformed", "latefail"])}
             else:
                 req = {"doc": di, "style": rng.choice(["prefix", "default", "none"]), "prefix": rng.choice(["xtce", "foo"]), "xsi": rng.random() < 0.5,
-                       "fault": rng.choice(["none", "none", "none", "malformed", "unsupported", "badprefix"])}
+                       "fault": rng.choice(["none", "none", "none", "malformed", "unsupported", "badprefix", "latefail"])}
             outcome, gp, gm, same, note = do_load(doc, req, rng)
             ev.append({"req": req, "outcome": outcome, "gp": gp, "gm": model_gm(gm, doc), "same": same, "note": note})
         recs.append(ev)
